@@ -308,8 +308,10 @@ def owns(prop, ev, tag):
     if prop == "C09":
         if e == "encode_seq":
             return True
-        return e == "encode" and tag in ("prefix-changed", "patch-outside", "octets") and (
-            tag != "octets" or bool(ev.get("prefix")))
+        # with a non-empty writer, wrong octets or a refusal of a value that fits contradict
+        # enc_into(p, v) = p ++ encode(v)
+        return e == "encode" and tag in ("prefix-changed", "patch-outside", "octets", "unexpected-panic") and (
+            tag in ("prefix-changed", "patch-outside") or bool(ev.get("prefix")))
     if prop == "C10":
         return e == "chain"
     if prop == "C11":
